@@ -60,7 +60,16 @@ pub(crate) fn fresh_ident(tokens: &TokenStream, base: &str, suffix: char) -> Ide
         token_stream.into_iter().any(|token| match token {
             TokenTree::Ident(ident) => ident.unraw() == name,
             TokenTree::Group(group) => contains(group.stream(), name),
-            TokenTree::Literal(literal) => literal.to_string().contains(name),
+            // a path may be given as a string literal: look at the tokens it spells (a name that
+            // is merely a part of a longer one, `H` in `Hash`, is not an occurrence)
+            TokenTree::Literal(literal) => match syn::parse_str::<syn::LitStr>(&literal.to_string())
+            {
+                Ok(lit) => match lit.value().parse::<TokenStream>() {
+                    Ok(tokens) => contains(tokens, name),
+                    Err(_) => lit.value().contains(name),
+                },
+                Err(_) => false,
+            },
             _ => false,
         })
     }
